@@ -178,7 +178,7 @@ func (g *gen) genOpt(pi *progInfo, n *nodeInfo, used map[string]bool, env *[]Env
 	case KStr, KStrOpt:
 		op.DefS = []string{"", "", "def", "d e", "x\ny", "é", "%H:%M", "100%", "%s %d %v"}[g.r.Intn(9)]
 	case KFlt, KFltOpt:
-		op.DefF = []float64{0, 0, 1.5, -2.25, 1e10, 0.1}[g.r.Intn(6)]
+		op.DefF = []float64{0, 0, 1.5, -2.25, 1e10, 0.1, 0.1234567, 1e-7, 2.5e-9, 1e21}[g.r.Intn(10)] // some are not what %f prints
 	case KStrs, KInts, KFlts, KMap:
 		op.Min = 1 + g.r.Intn(2)
 		op.Max = op.Min + g.r.Intn(3)
@@ -889,6 +889,14 @@ func (g *gen) genCompLine(pi *progInfo) string {
 	line += " " + last
 	if g.p(0.15) {
 		line += " "
+	}
+	if g.p(0.04) {
+		// a backslash at the very end of the line, or in front of a blank in the middle of it
+		if g.p(0.6) {
+			line = strings.TrimRight(line, " ") + "\\"
+		} else if i := strings.Index(line[2:], " "); i >= 0 {
+			line = line[:2+i] + "\\" + line[2+i:]
+		}
 	}
 	return line
 }
